@@ -28,7 +28,10 @@ def run(tier):
                "decode_json<T>(text) and json::parse(text).as<T>() both succeed with equal values or both report a json_exception. "
                "non-trivial = (value, format) round trips and texts both routes accept.")
     ck.assumptions = ["deque<int>/set<int> do not compile with encode_cbor in this version (typed-array path builds a span): string element types are used instead",
-                      "any exception of the library's json_exception family counts as 'reported as a conversion error'"]
+                      "any exception of the library's json_exception family counts as 'reported as a conversion error'",
+                      "CBOR carries an epoch_nano count as tag 1 with a float64 of seconds: chrono::nanoseconds via CBOR are compared up to the rounding of "
+                      "that double (1 part in 2^52, at least 1 ns); counts within 1 s of the int64 limits are left out for that route (the float rounds "
+                      "beyond the range)"]
     ck.finish(replay)
 
 
